@@ -455,6 +455,10 @@ class SReal:
         # not to lie within 1e-n of their boundary.
         return self
 
+    def __bool__(self):
+        # Python truthiness of a number: x != 0 (a solver-decided fork, like any other comparison)
+        return CTX.branch(_real(self.e) != 0)
+
     def __float__(self):
         raise TypeError("float() of a symbolic real (module-level float stand-in missing)")
 
